@@ -91,10 +91,28 @@ def gen_one(r, i, tier):
     probe = (i % 4 == 1)
     spec = g.spec(kind=r.choice(["Bin", "Bin", "SparselyBin", "CentrallyBin", "IrregularlyBin", "Stack"])
                   if probe else r.choice(gen.NODES))
+    guard = (i % 8 == 6)
+    if guard:
+        # scaling by a non-positive / NaN factor: every node kind at the root (collections also
+        # directly below a collection of their own kind), filled, then scaled and merged back
+        K = gen.NODES[(i // 8) % len(gen.NODES)]
+        spec = g.spec(kind=K)
+        if K in ("Index", "Branch") and (i // 8 // len(gen.NODES)) % 2 == 1:
+            spec = {"k": K, "values": [spec]}
     vals = gen.critical_values(spec)
     bf = gen.critical_by_field(spec)
     ops = [("new", spec), ("new", spec)]
     npool = 2
+    if guard:
+        for _ in range(r.randint(2, 5)):
+            d = gen.datum(r, vals, byfield=bf) if not dyadic else base.small_stream(r, spec, 1, [1.0])[0][0]
+            ops.append(("fill", 0, d, r.choice([1.0, 2.0, 0.5])))
+        f = [-1.0, float("nan"), -float("inf"), 0.0, -0.5][(i // 8) % 5]
+        ops.append(("mul", 0, f))          # 2
+        ops.append(("add", 0, 2))          # 3
+        ops.append(("iadd", 1, 2))
+        ops.append(("mul", 3, 2.0))        # 4
+        return {"ops": ops, "meta": {"dyadic": dyadic, "guard": True}}
     if probe:
         # edge-adjacency probe: every critical value of the root's own configuration, once,
         # through the field its quantity reads
